@@ -142,7 +142,8 @@ def gen_instance(rng, sw=None, thorough=False):
         n2 = rng.randint(11, 12)
         n3 = rng.randint(1, 3) if na == 3 else n2
     if shape == 'big':                 # real-CBC lane at scale, no enumeration
-        n1 = rng.randint(10, 24)
+        n1 = rng.randint(10, 24) if rng.random() < 0.75 else \
+            rng.randint(25, 40)
         n2 = rng.randint(5, 12)
         n3 = rng.randint(2, 6) if na == 3 else n2
     ties1 = sw.get('ties1', rng.choice([0, 0, .3, .7, 1]))
